@@ -50,7 +50,11 @@ prop("C07", True,
      "Structural necessary conditions of totality: (R1) no allocation size reachable from wkb.Read/Decode or hex.Decode is an input count unless bounded at that point; (R2) every explicit panic, single-result assertion and index/slice expression reachable from the five decoder entry points is below the frame that recovers and sets the error result (GeoJSON) or statically safe (WKB/hex), and every value passed to panic implements error (the recovery asserts e.(error)); (R3) no decoder function uses a value before testing the error it was returned with. This covers the statement's 'never panics' and 'count fields are not trusted' for all inputs; tests sample zero malformed inputs.",
      "Not decided: total memory as a multiple of input length beyond 'no allocation sized by an unchecked count' (encoding/json's own allocations, recursion depth); the re-encode/decode fixpoint. Trusted: encoding/binary, encoding/json, encoding/hex do not panic on the values passed. Reachability: static calls + function values resolved by signature within the package; interface method calls into the standard library are not followed.",
      None)
-prop("C08", False, "", "", "", NOT_YET)
+prop("C08", True,
+     "SSA backward data-dependence of closure results (through phis, allocs, field loads), registry table extraction, stage/role classification of the NewTransform pipeline",
+     "(R1) in all 14 forward/inverse closures of the registered projections every success return yields coordinates that depend on the inputs; (R2) the NewTransform pipeline is mirrored around the datum shift: ×/÷ ToMeter, ± FromGreenwich, deg2rad·r2d = 1, inverse member for the source and forward member for the destination, denorm false/true, stages in mirrored order; (R3) all eight projections are registered with constructors yielding both closures; (R4) in each inverse the longitude result depends on Long0 and the latitude does not. Necessary for inverse(forward(p)) = p; broken instances are total failures (Krovak inverse returned (0,0)).",
+     "Not decided: the projection formulas themselves, convergence of the iterative latitude solvers inside the usable region, tolerance figures. Dropping a solver's error was considered and rejected as a rule (not necessary for C08).",
+     None)
 prop("C09", True,
      "table agreement between Go composite literals (constants folded by go/types) and the bundled proj4js 2.3.12 sources read by a small JS-subset reader; typed-constant rule for integer division in float context; angle-unit type system (degree/radian) evaluated by path-sensitive AST dataflow against proj4js' own params table; call-order rule for the datum shifts",
      "(R1, complete for this clause) all 43 ellipsoids, 16 datums, 13 prime meridians, 2 units and 14 named numeric constants equal the bundled proj4js source as float64 (same key sets, towgs84 element-wise); (R2) no integer-constant quotient is used as a float coefficient; (R3) every PROJ.4 key that proj4js multiplies by D2R is multiplied by deg2rad exactly once on every path of its case and no linear/scale key is; (R4) no 2-D Transformer hop between two datum shifts.",
@@ -59,7 +63,7 @@ prop("C09", True,
 prop("C10", True,
      "path-sensitive error-before-use dataflow, affine index-map analysis of the copy loops, shape checks on the type-checked AST; SSA effect analysis of the transformer closures",
      "Geometry side: (R3) in all eight Transform methods a member result returned with an error is never asserted/indexed/returned-with-nil before the error is tested; (R4) nil transformer returns the receiver, otherwise a fresh value of the receiver's shape filled by out[i]=t(in[i]) over the full range with X/Y passed and stored in order, the receiver never written, *Bounds becomes the 4-corner ring in ring order. Projection side (R1/R2) see level_note.",
-     "Not decided: numerical equality with a fresh transformer (follows from 'no state survives' only assuming deterministic float arithmetic). R1/R2 (per-call state in proj.NewTransform, constant index guard) are armed only once listed in the evidence's rule list.",
+     "Not decided: numerical equality with a fresh transformer (follows from 'no state survives' only assuming deterministic float arithmetic). Projection side: (R1a) no Transformer closure assigns a captured variable (SSA store to a free variable), (R1b) none stores an argument-dependent value into captured/package state, (R1c) all 39 stores to SR/datum fields made by constructors and helpers on the per-call path are lazy initialisations, normalising overwrites from stable fields, or saved-and-restored temporaries (restore may be skipped only on error returns); (R2) constant indices into the coordinate slice are below the callers' literal length or behind a length guard.",
      None)
 prop("C11", True,
      "path-sensitive AST dataflow with balance facts (root/height, size), placement/parent-link pairing rules, post-dominance of the upward envelope pass over the package call graph, purity summaries, abstract interpretation over the order domain for the box predicates",
@@ -110,7 +114,11 @@ prop("C19", True,
      "(R1) the static type of the graph passed to gonum path.AStar implements path.Weighted — the optional interface AStar asserts before silently falling back to unit costs (near-misses are reported with both signatures); (R2) the field the time heuristic divides by is a running maximum of link speeds at every store (admissibility direction); (R3) Weight returns the time/length field per option with no numeric default, time = length/speed, the route loop covers every consecutive node pair and sums the appended link's own length and time; (R4) adjacency stores are mirrored.",
      "Not decided: optimality of gonum's A* itself, node snapping tolerance (newNode / op.PointEquals), behaviour for disconnected nodes.",
      None)
-prop("C20", False, "", "", "", NOT_YET)
+prop("C20", True,
+     "table agreement between the WKT PARAMETER switch and the PROJ.4 key switch against an OGC↔PROJ correspondence table held in the checker; unit rules (deg2rad / ToMeter) on the type-checked AST; registry extraction; path-sensitive rule for the identity shortcut",
+     "(R1) the 11 corresponding WKT/PROJ.4 parameter names set the same SR field; (R2) WKT angular parameters × deg2rad, linear ones not, false origin × ToMeter exactly once after all sections are parsed, UNIT factor stored unchanged for projected systems; (R3) each of the five WKT projection names is registered for the same constructor as its PROJ.4 short name and every alias in the definition registry is bound to the identical *SR; (R4) NewTransform returns the nil transformer exactly on the Equal-true path.",
+     "Not decided: micrometre agreement of the resulting transformers, Equal's ULP arithmetic over reflected fields, SPHEROID/DATUM/TOWGS84 clause handling beyond the tables (datum renaming heuristics).",
+     None)
 
 def main():
     checks, na = [], []
